@@ -19,7 +19,6 @@ ExprHash_Trace.tla (recorded groups).
 from __future__ import annotations
 
 import copy
-import json
 import pickle
 
 from ..core import Ctx, MachineryError
@@ -110,6 +109,14 @@ def describe(c: Case) -> str:
     a, b = c.info["a"], c.info["b"]
     return (f"expressions {short(a)} and {short(b)} have {'the same' if c.real == 's' else 'different'} "
             f"hash, but denote {'different calls' if c.law == 'd' else 'the same call'}")
+
+
+def prefer(c: Case):
+    """Witness choice: plain .options(...) differences on flat expressions first."""
+    a, b = c.info["a"], c.info["b"]
+    fancy = sum(len(e["expo"]) + (e["via"] == "ctor") + sum(x["k"] == "expr" for x in e["pos"]) + len(e["kw"])
+                + (0 if e["opts"] else 1) for e in (a, b))
+    return (0 if c.law == "d" else 1, fancy, len(short(a)) + len(short(b)))
 
 
 def short(e: dict) -> str:
@@ -403,7 +410,17 @@ def end_to_end(ctx: Ctx) -> None:
     with fresh_scheduler() as s:
         got = s.run(mod.parent())
         got2 = s.run(mod.parent_nested())
-    ctx.count_impl_trace(2)
+        # bookkeeping as the scheduler really fills it in, then a pickle round trip
+        e = mod.tprobe(7, tag="x")
+        s.run(e)
+        filled = e.__dict__.get("call_hash") is not None
+        e2 = pickle.loads(pickle.dumps(e))
+        ctx.note("e2e_bookkeeping", {"call_hash_set_by_scheduler": filled,
+                                     "cleared_by_round_trip": e2.__dict__.get("call_hash", 0) is None})
+        if e2.get_hash() != e.get_hash() or e2.__dict__.get("call_hash", 0) is not None:
+            ctx.violation("an evaluated TaskExpression does not come back from a pickle round trip with the same "
+                          "hash and cleared call_hash", {"e2e": "round trip"})
+    ctx.count_impl_trace(3)
     tags = [g[1] for g in got]
     tags2 = [g[0][1] for g in got2]
     ctx.note("e2e_probe_result", {"parent": got, "parent_nested": got2})
@@ -441,7 +458,7 @@ def run(ctx: Ctx) -> None:
                   workers=2)
         expect_violation(ctl, "LawAsBuilt", "ExprHash.tla LawAsBuilt control")
         ctx.add_tlc(ctl)
-    j = judge(ctx, cases, DEVS, KEYS, describe)
+    j = judge(ctx, cases, DEVS, KEYS, describe, prefer=prefer)
     note_judgement(ctx, "spec_to_code", j)
     ex = [c for c in cases if c.law == "d" and c.info["a"]["kind"] == "task"]
     if ex:
@@ -455,7 +472,7 @@ def run(ctx: Ctx) -> None:
 
     with timed(ctx, "backward"):
         bcases = backward(ctx, w, ctx.pick(150, 5000))
-    jb = judge(ctx, bcases, DEVS, KEYS, describe)
+    jb = judge(ctx, bcases, DEVS, KEYS, describe, prefer=prefer)
     note_judgement(ctx, "code_to_spec", jb)
 
     # a corrupted observation in the forward direction must be seen as a violation of the law
@@ -474,7 +491,7 @@ def replay(ctx: Ctx, rec: dict) -> None:
         hs = [w.build(a).get_hash(), w.build(b).get_hash()]
         out = validate_groups(ctx, [{"items": [a, b], "cls": classes(hs)}], "replay")
         cases = [Case(law, "".join(vstr), o, {"a": a, "b": b}, "replay") for _, _, o, law, vstr in out[1][1]]
-        judge(ctx, cases, DEVS, KEYS, describe)
+        judge(ctx, cases, DEVS, KEYS, describe, prefer=prefer)
     elif "life" in r:
         bad = replay_life(w, r["life"]["e"], r["life"]["hist"])
         if bad:
